@@ -871,7 +871,7 @@ func c10ReplayOn(c *explore.Ctx, backend string, max int, inflExp time.Duration,
 
 func runC10(c *explore.Ctx) {
 	c.Level = "model_checking"
-	c.Rule = "E1: explicit-state BFS (depth-bounded; virtual clock) over Add(6 variants)/Read(1|2 ids)/ReadInflight(1|2)/Remove (handed-out id, unknown id, in-flight entry not replayed yet)/Replace/Init(clean|resume)/Close/Advance(6s|31s) on the real mem queue for max in {1,2,3} x inflight expiry in {0,30s}, and on the real redis queue (redigo against the in-process RESP server; max in {1,2}, thorough also 3; the redis list is read from the server after every op); callers respect the documented preconditions (ReadInflight drained before Read, Init only after Close); a blocking Read is a thread whose release by Add/Close is part of the state. After every op: private list / redis list contents == reference list (conservation), length <= max, outputs explained by the reference (FIFO, ids, expired/oversize never returned, replay after resume, drop ladder), sum of notifier deltas == contents."
+	c.Rule = "E1: explicit-state BFS (depth-bounded; virtual clock) over Add(6 variants)/Read(1|2 ids)/ReadInflight(1|2)/Remove (handed-out id, unknown id, in-flight entry not replayed yet)/Replace/Init(clean|resume)/Close/Advance(6s|31s) on the real mem queue for max in {1,2,3} x inflight expiry in {0,30s}, and on the real redis queue (redigo against the in-process RESP server; max in {1,2}, thorough also 3; the redis list is read from the server after every op); callers respect the documented preconditions (ReadInflight drained before Read, Init only after Close); a blocking Read is a thread whose release by Add/Close is part of the state. After every op: private list / redis list contents == reference list (conservation), length <= max, outputs explained by the reference (FIFO, ids, expired/oversize never returned, replay after resume, drop ladder), sum of notifier deltas == contents. E3 (redis): an Add on a full queue races a Read, or a second Add, each on its own pooled connection, every schedule with <=k deviations: the stored list, the drops reported and what Read handed out are conserving, bounded and equal to the counters."
 	c.Trusted = []string{"vsched virtual clock / Cond semantics", "statekey.Dump", "reference list model written from the property statement and the documented inflight_expiry semantics"}
 	c.Assumptions = []string{"queue counters are compared from the last Init(clean) on (Init(clean) discards contents without notifier deltas; the broker resets the statistics of a terminated session separately)"}
 	if rc := replayCase(c); rc != nil {
@@ -983,4 +983,5 @@ func runC10(c *explore.Ctx) {
 			c.Sample(map[string]any{"backend": un.back, "max": un.cfg.max, "inflight_expiry_s": int(un.cfg.infl / time.Second), "prefix": []string{c10OpName(un.prefix[0])}, "states": res.States, "transitions": res.Transitions, "depth": res.Depth})
 		}
 	})
+	c10RedisRace(c)
 }
